@@ -39,7 +39,9 @@ QUICK_N, THOROUGH_N = 24_000, 600_000
 DNS = ["a.x.test", "b.x.test", "c.b.x.test", "x.test", "*.x.test", "y.test"]
 IPS = ["10.0.0.1", "10.0.0.2", "::1"]
 SAN_UNIVERSE = [("dns", n) for n in DNS] + [("ip", n) for n in IPS]
-CNS = [None, "a.x.test", "b.x.test", "c.b.x.test", "x.test", "*.x.test", "10.0.0.1", "y.test"]
+# names longer than 64 characters cannot be a certificate CN (dummy_cert omits it): the store must still bound and key them
+LONG = ["%s%d.long.x.test" % ("l" * 58, i) for i in range(6)]
+CNS = [None, "a.x.test", "b.x.test", "c.b.x.test", "x.test", "*.x.test", "10.0.0.1", "y.test"] + LONG
 # custom leaf certificates: (cn, [sans])
 CUSTOM = [
     ("a.x.test", [("dns", "a.x.test")]),
@@ -221,8 +223,9 @@ def check_case(case, ctx):
                         ctx.cls("custom via exact name")
             else:
                 gcn, gnames = cert_names(entry.cert)
-                if gcn != cn or gnames != frozenset(sans):
-                    ctx.fail("generated-wrong-names:%s" % ("cn" if gcn != cn else "sans"),
+                cn_ok = gcn == cn or (gcn is None and cn is not None and len(cn) >= 64)  # over-long CNs are omitted
+                if not cn_ok or gnames != frozenset(sans):
+                    ctx.fail("generated-wrong-names:%s" % ("cn" if not cn_ok else "sans"),
                              "get_cert(%r, %r) returned a generated certificate for cn=%r sans=%r" % (cn, sans, gcn, sorted(gnames)))
                 if entry.cert.issuer != cacert.subject:
                     ctx.fail("generated-wrong-issuer", repr(entry.cert.issuer))
